@@ -62,8 +62,12 @@ private:
   // destruction
   void* key;
 
+  // The incarnation of the sandbox object this callback was registered with
+  uint32_t sandbox_incarnation = 0;
+
   inline void move_obj(sandbox_callback&& other)
   {
+    sandbox_incarnation = other.sandbox_incarnation;
     sandbox = other.sandbox;
     callback = other.callback;
     callback_interceptor = other.callback_interceptor;
@@ -85,7 +89,8 @@ private:
       // 2) if this does happen, the worst that can happen is an invocation of a
       // null function pointer, which causes a crash that cannot be exploited
       // for RCE
-      sandbox->template unregister_callback<T_Ret, T_Args...>(key);
+      sandbox->template unregister_callback<T_Ret, T_Args...>(
+        key, sandbox_incarnation);
       sandbox = nullptr;
       callback = nullptr;
       callback_interceptor = nullptr;
@@ -106,12 +111,14 @@ private:
                    T_Callback p_callback,
                    T_Interceptor p_callback_interceptor,
                    T_Trampoline p_callback_trampoline,
-                   void* p_key)
+                   void* p_key,
+                   uint32_t p_sandbox_incarnation)
     : sandbox(p_sandbox)
     , callback(p_callback)
     , callback_interceptor(p_callback_interceptor)
     , callback_trampoline(p_callback_trampoline)
     , key(p_key)
+    , sandbox_incarnation(p_sandbox_incarnation)
   {
     detail::dynamic_check(sandbox != nullptr,
                           "Unexpected null sandbox when creating a callback");
